@@ -271,7 +271,7 @@ func notifierRules(c *Ctx) {
 		return ok && an.FieldOfAddr(st.Addr) == "SelectCase.Send"
 	}) {
 		ok := true
-		for _, s := range P.Sources(in.(*ssa.Store).Val) {
+		for _, s := range P.SourcesAt(in.(*ssa.Store).Val, in) {
 			isVO := P.IsCallResult(s, "reflect.ValueOf", 0) && usesValue(P, s.(*ssa.Call).Call.Args[0], fn.Params[3])
 			isZ := P.IsCallResult(s, "reflect.Zero", 0)
 			if !isVO && !isZ {
@@ -478,6 +478,28 @@ func notifierRules(c *Ctx) {
 			for _, ifi := range exitIfs {
 				if !P.PathExists(fn, sel, an.Is(r), nil, cutEdge(ifi, 0)) {
 					ok = true
+				}
+			}
+			if !ok {
+				// one return shared by both ways out: nothing else leads to it
+				var cuts []an.EdgeCut
+				for _, ifi := range lenIfs {
+					if P.InCycle(ifi) {
+						cuts = append(cuts, cutEdge(ifi, 1))
+					}
+				}
+				for _, ifi := range exitIfs {
+					cuts = append(cuts, cutEdge(ifi, 0))
+				}
+				if len(cuts) >= 2 {
+					ok = !P.PathExists(fn, sel, an.Is(r), nil, func(b *ssa.BasicBlock, i int) bool {
+						for _, c := range cuts {
+							if c(b, i) {
+								return true
+							}
+						}
+						return false
+					})
 				}
 			}
 			q.add("PATH", "Publish returns only when every pending send is resolved or its own context fired", ok, "return through len(successCases) == 0 or the exit case", r)
